@@ -5,7 +5,7 @@ import udp_common as U
 META = {
     'engine': 'frame',
     'technique': 'Coq codec round-trip and layout proofs for the transcribed framing pipeline and invariant proofs for the modelled nonce generator; independent README-based decoder and byte-exact replay of every emitted datagram',
-    'level_text': "Machine-checked on the transcribed sequential pipeline (segment codec, FEC header numbering, nonce/CRC framing for the CRC cipher classes and nonce+seal for AEAD, with the cipher, CRC and Reed-Solomon encoder abstract): parse(encode s) = s with the documented offsets; a decoder written from the README alone recovers the core datagram from every frame (data, parity, OOB; every cipher class; FEC on/off); FEC ids advance modulo paws counting skipped parity, type = data iff position < d, ids distinct within a wrap period, OOB consumes no id; parity payloads are the RS code of the zero-padded size-prefixed payloads (relative to rs_encode); distinct nonces give pairwise distinct datagrams. Tied to sess.go/fec.go/kcp.go by capturing EVERY datagram real sessions hand to the PacketConn over a lossy in-memory network for all cipher classes x FEC ratios x MTUs x write patterns, decoding it with an independent Go decoder and with the extracted spec decoder, regenerating each direction's emission sequence byte for byte in the extracted model, and recomputing parity with klauspost/reedsolomon.", 'level_note': 'Trusted: Coq kernel; extraction and ml/frame_driver.ml; the overlay harness; the real ciphers, CRC32 and Reed-Solomon are abstract in the theorems (their laws are explicit premises) and library code in the harness. Nonce non-repetition is a hypothesis about AES and crypto/rand; the generator's own logic (entropy.go rngAES: counter, reseed, seed chaining, ReadFull) is modelled in coq/frame/Entropy.v with the block function and crypto/rand abstract, proved to keep every key to at most reseedInterval+1 outputs and to emit pairwise distinct 16-byte nonces within an epoch unless the seed orbit of the injective block function closes, and replayed against the real rngAES (toy cipher.Block, scripted crypto/rand, counters at the reseed boundary). rngChacha8 and 12-byte AEAD nonce collisions are not covered by a theorem. The sendmmsg batch path over real UDP sockets is not exercised.',
+    'level_text': "Machine-checked on the transcribed sequential pipeline (segment codec, FEC header numbering, nonce/CRC framing for the CRC cipher classes and nonce+seal for AEAD, with the cipher, CRC and Reed-Solomon encoder abstract): parse(encode s) = s with the documented offsets; a decoder written from the README alone recovers the core datagram from every frame (data, parity, OOB; every cipher class; FEC on/off); FEC ids advance modulo paws counting skipped parity, type = data iff position < d, ids distinct within a wrap period, OOB consumes no id; parity payloads are the RS code of the zero-padded size-prefixed payloads (relative to rs_encode); distinct nonces give pairwise distinct datagrams. Tied to sess.go/fec.go/kcp.go by capturing EVERY datagram real sessions hand to the PacketConn over a lossy in-memory network for all cipher classes x FEC ratios x MTUs x write patterns, decoding it with an independent Go decoder and with the extracted spec decoder, regenerating each direction's emission sequence byte for byte in the extracted model, and recomputing parity with klauspost/reedsolomon.", 'level_note': 'Trusted: Coq kernel; extraction and ml/frame_driver.ml; the overlay harness; the real ciphers, CRC32 and Reed-Solomon are abstract in the theorems (their laws are explicit premises) and library code in the harness. Nonce non-repetition is a hypothesis about AES and crypto/rand; the own logic of the generator (entropy.go rngAES: counter, reseed, seed chaining, ReadFull) is modelled in coq/frame/Entropy.v with the block function and crypto/rand abstract, proved to keep every key to at most reseedInterval+1 outputs and to emit pairwise distinct 16-byte nonces within an epoch unless the seed orbit of the injective block function closes, and replayed against the real rngAES (toy cipher.Block, scripted crypto/rand, counters at the reseed boundary). rngChacha8 and 12-byte AEAD nonce collisions are not covered by a theorem. The sendmmsg batch path over real UDP sockets is not exercised.',
 }
 
 FILES = ["frame_test.go"]
